@@ -595,3 +595,43 @@ M('c07-wsgi-readlines-hoisted-append-drops-overshooting-line', 'C07', 'R3', W,
 # the raw read hoisted into a local and called directly, bypassing the clamp
 M('c07-wsgi-read-hoisted-raw-read-called-directly', 'C07', None, W, _READ_BODY,
   "        raw_read = self.stream.read\n        return raw_read(size)\n")
+# pre-emptive hardening (same wave): each refactoring below is read silently on its own; with the mistake it must fire
+# a pure control flag instead of `break` -- and the flag is set on a short read
+M('c07-wsgi-exhaust-flag-loop-stops-on-short-read', 'C07', 'R3', W, _EXHAUST_LOOP,
+  "        done = False\n        while not done:\n            chunk = self.read(chunk_size)\n            if len(chunk) < chunk_size:\n                done = True\n")
+# walrus loop that ends on a short read
+M('c07-wsgi-exhaust-walrus-loop-stops-on-short-read', 'C07', 'R3', W, _EXHAUST_LOOP,
+  "        while len(chunk := self.read(chunk_size)) == chunk_size:\n            pass\n")
+# ASGI: `append = chunks.append` hoisted out of the receive loop of readall(), oversize branch appends the whole chunk
+M2('c07-asgi-readall-hoisted-append-drops-truncation', 'C07', 'R4', [
+    {'file': A, 'old': "            chunks = []\n\n        while self._bytes_remaining > 0:\n            event = await self._receive()\n\n            # PERF(kgriffs): Use try..except because we normally expect the\n",
+     'new': "            chunks = []\n\n        append = chunks.append\n        while self._bytes_remaining > 0:\n            event = await self._receive()\n\n            # PERF(kgriffs): Use try..except because we normally expect the\n",
+},
+    {'file': A, 'old': "                    chunks.append(next_chunk[: self._bytes_remaining])\n                    self._bytes_remaining = 0\n\n            # NOTE(kgriffs): This also handles the case of receiving\n",
+     'new': "                    append(next_chunk)\n                    self._bytes_remaining = 0\n\n            # NOTE(kgriffs): This also handles the case of receiving\n"}])
+# ASGI: the more_body test moved into a module-level helper that forgets the truthiness of the value
+M2('c07-asgi-more-body-helper-tests-presence-only', 'C07', 'R5', [
+    {'file': A, 'old': "            if not ('more_body' in event and event['more_body']):\n                self._bytes_remaining = 0\n\n        data = chunks[0] if len(chunks) == 1 else b''.join(chunks)\n        self._pos += len(data)\n\n        return data\n\n    async def read(",
+     'new': "            if not _has_more_body(event):\n                self._bytes_remaining = 0\n\n        data = chunks[0] if len(chunks) == 1 else b''.join(chunks)\n        self._pos += len(data)\n\n        return data\n\n    async def read("},
+    {'file': A, 'old': "class BoundedStream:", 'new': "def _has_more_body(event):\n    return 'more_body' in event\n\n\nclass BoundedStream:"}])
+# ASGI: exhaust() reads the body through event.get('body', b'') and forgets the clamp
+M('c07-asgi-exhaust-body-get-without-clamp', 'C07', 'R4', A,
+  "                try:\n                    num_bytes = len(event['body'])\n                except KeyError:\n"
+  "                    # NOTE(kgriffs): The ASGI spec states that 'body' is optional.\n                    num_bytes = 0\n\n"
+  "                # NOTE: Do not count more data than we are expecting; an\n                #   over-long chunk is truncated the same way as in read().\n"
+  "                if num_bytes > self._bytes_remaining:\n                    num_bytes = self._bytes_remaining\n",
+  "                num_bytes = len(event.get('body', b''))\n")
+# ASGI read(): the size test moved into the loop body as `if ...: break`, and the F3 slip (counter grows by the zeroed budget)
+M2('c07-asgi-read-break-form-counter-after-zeroing', 'C07', 'R4', [
+    {'file': A, 'old': "        while self._bytes_remaining > 0 and num_bytes_available < size:\n",
+     'new': "        while self._bytes_remaining > 0:\n            if num_bytes_available >= size:\n                break\n"},
+    {'file': A, 'old': "                    num_bytes_available += self._bytes_remaining\n                    self._bytes_remaining = 0\n",
+     'new': "                    self._bytes_remaining = 0\n                    num_bytes_available += self._bytes_remaining\n"}])
+# R6: the memo travels through a local (`stream = self._bounded_stream ... return stream`) and the store is forgotten
+M('c07-wsgi-bounded-stream-local-memo-not-stored', 'C07', 'R6', 'falcon/request.py',
+  "        if self._bounded_stream is None:\n            self._bounded_stream = self._get_wrapped_wsgi_input()\n\n        return self._bounded_stream\n",
+  "        stream = self._bounded_stream\n        if stream is None:\n            stream = self._get_wrapped_wsgi_input()\n\n        return stream\n")
+# the disconnect test written against 'http.request' -- with the wrong operator (every ordinary event ends the body)
+M('c07-asgi-exhaust-request-type-test-wrong-operator', 'C07', 'R4', A,
+  "            if event['type'] == 'http.disconnect':\n                self._bytes_remaining = 0\n            else:\n                try:\n                    num_bytes = len(event['body'])\n",
+  "            if event['type'] == 'http.request':\n                self._bytes_remaining = 0\n            else:\n                try:\n                    num_bytes = len(event['body'])\n")
